@@ -1,7 +1,7 @@
 (* C07, linear-time clause: the step-counting costs of Proofs/TotalCostDef.v are bounded by
    a * (input length) + b with explicit small constants. *)
 From Verif Require Import Lib.Base Lib.Sx Lib.Bitfield Proofs.AacBits Proofs.TotalCostDef.
-From Verif Require Model.Avc Model.Aac Model.Flv Model.Amf0 Model.RtmpChunk Model.JsonPlus Proofs.Aac Proofs.Avc Proofs.Amf0 Proofs.Amf0Fast Proofs.RtmpChunk.
+From Verif Require Model.Avc Model.Aac Model.Flv Model.Amf0 Model.RtmpChunk Model.JsonPlus Proofs.Aac Proofs.Avc Proofs.Amf0 Proofs.Amf0Fast Proofs.RtmpChunk Proofs.JsonPlusSplit Proofs.JsonPlusStrip.
 Open Scope N_scope.
 
 (* ================================================================== AVC *)
@@ -361,5 +361,74 @@ Theorem cost_strip_bound d : cost_strip d <= (lenN d + 2) * (5 * lenN d + 6).
 Proof.
   unfold cost_strip. pose proof (cost_strip_go_bound (S (S (length d))) d) as H.
   rewrite !Nat2N.inj_succ, <- lenN_length in H. lia.
+Qed.
+
+(* ---- the per-token rescan is real: with the whole document as the window the cost is quadratic.
+   Witness family: m line comments "//\n" -- the apostrophe marker never occurs, so every token
+   searches it through all that is left of the window. ---- *)
+Fixpoint dm (m : nat) : bytes := match m with O => [] | S m' => 47 :: 47 :: 10 :: dm m' end.
+
+Lemma dm_len m : lenN (dm m) = 3 * N.of_nat m.
+Proof. induction m as [|m IH]; [reflexivity|]. cbn [dm]. rewrite !lenN_cons, IH. lia. Qed.
+
+Lemma dm_no_apos m : forall x, In x (dm m) -> x <> 39.
+Proof.
+  induction m as [|m IH]; intros x H; [destruct H|].
+  cbn [dm In] in H. destruct H as [<-|[<-|[<-|H]]]; try discriminate. exact (IH x H).
+Qed.
+
+Lemma cost_index_absent c d : (forall x, In x d -> x <> c) -> cost_index [c] d = lenN d + 1.
+Proof.
+  induction d as [|x d IH]; intros H; [reflexivity|].
+  cbn [cost_index is_prefix]. assert (E : (c =? x) = false) by (apply N.eqb_neq; intros ->; exact (H x (or_introl eq_refl) eq_refl)).
+  rewrite E. cbn [andb]. rewrite lenN_cons, IH by (intros y Hy; apply H; right; exact Hy). lia.
+Qed.
+
+Lemma cost_fm_ge data f flags : In f flags -> cost_index f data <= cost_fm data flags.
+Proof.
+  induction flags as [|g r IH]; intros H; [destruct H|]. cbn [cost_fm].
+  destruct H as [->|H]; [lia|]. specialize (IH H). lia.
+Qed.
+
+Lemma cost_split_dm m : lenN (dm (S m)) + 1 <= cost_split (dm (S m)) true.
+Proof.
+  unfold cost_split. cbn [dm is_nil andb].
+  assert (I : In [39] start_matches) by (vm_compute; auto).
+  pose proof (cost_fm_ge (dm (S m)) [39] start_matches I) as G.
+  rewrite (cost_index_absent 39 (dm (S m)) (dm_no_apos (S m))) in G. cbn [dm] in G. lia.
+Qed.
+
+Lemma split_dm m e : split (dm (S m)) e = Ok (Tok 3 []).
+Proof.
+  pose proof (Verif.Proofs.JsonPlusStrip.split_marker [] 2 [] (dm m) e eq_refl ltac:(lia)) as H.
+  cbn [dm]. change (47 :: 47 :: 10 :: dm m) with ([] ++ Verif.Proofs.JsonPlusSplit.mk_sm 2 ++ [] ++ Verif.Proofs.JsonPlusSplit.mk_em 2 ++ dm m).
+  rewrite H; [reflexivity| |reflexivity].
+  intros j mm Hj Hp. destruct j as [|[|j]]; [| |lia]; vm_compute in Hj; inversion Hj; subst mm; cbn in Hp; discriminate.
+Qed.
+
+Lemma cost_strip_go_dm : forall m fuel, (m <= fuel)%nat ->
+  3 * N.of_nat m * (N.of_nat m + 1) <= 2 * cost_strip_go fuel (dm m).
+Proof.
+  induction m as [|m IH]; intros fuel Hf; [cbn; lia|].
+  destruct fuel as [|f]; [lia|]. cbn [cost_strip_go]. rewrite split_dm.
+  pose proof (cost_split_dm m) as C. rewrite dm_len in C.
+  assert (L : lenZ (dm (S m)) = (3 * Z.of_nat (S m))%Z) by (unfold lenZ; rewrite dm_len; lia).
+  rewrite L. replace ((3 <=? 0)%Z || (3 * Z.of_nat (S m) <? 3)%Z) with false
+    by (symmetry; apply orb_false_intro; [reflexivity|apply Z.ltb_ge; lia]).
+  change (skipn (Z.to_nat 3) (dm (S m))) with (dm m).
+  specialize (IH f ltac:(lia)). rewrite Nat2N.inj_succ in *. nia.
+Qed.
+
+(* no linear bound for the whole-window scan *)
+Theorem cost_strip_quadratic_refuted : forall k : N, exists d, wf_bytes d /\ cost_strip d > k * lenN d.
+Proof.
+  intros k. exists (dm (N.to_nat (2 * k + 1))). split.
+  - unfold wf_bytes. generalize (N.to_nat (2 * k + 1)). induction n as [|n IH]; [constructor|].
+    cbn [dm]. repeat constructor; try (unfold wf_byte; lia). exact IH.
+  - unfold cost_strip. rewrite dm_len, N2Nat.id.
+    pose proof (cost_strip_go_dm (N.to_nat (2 * k + 1)) (S (S (length (dm (N.to_nat (2 * k + 1))))))) as H.
+    assert (Hl : (N.to_nat (2 * k + 1) <= S (S (length (dm (N.to_nat (2 * k + 1))))))%nat).
+    { pose proof (dm_len (N.to_nat (2 * k + 1))) as D. rewrite lenN_length in D. lia. }
+    specialize (H Hl). rewrite N2Nat.id in H. nia.
 Qed.
 End PJson.
